@@ -46,6 +46,8 @@ def flags_dag(v0: int, v1: int, v2: int, z: int, g: int, z2: int, g2: int, p1_1:
     d = Dag(N, cached=cached, zreaders=zreaders)
     with notrace():
         d.S.new_cells("ul", formula="lambda lst: len(lst) + v0", is_cached=False)
+        d.S.new_cells("ulf", formula="lambda lst: 1 // (len(lst) - 3)", is_cached=False)     # fails for a list of three
+        d.S.new_cells("culf", formula="lambda: ulf([1, 2, 3]) + 1")
     d.bind([v0, v1, v2], [-1, p1_1, p1_2], [-1, p2_1, p2_2], [False, False, T2], z, g)
     done = []
     for step, (q, t) in enumerate(((q1, t1), (q2, t2))):
@@ -94,7 +96,14 @@ def flags_dag(v0: int, v1: int, v2: int, z: int, g: int, z2: int, g2: int, p1_1:
             if not check(r[0] == "ok" and r[1] == d.val(q, t), "value after changing %s under this flag assignment" % ("Sub.z" if which == 0 else "g"), lambda: (r, d.val(q, t))):
                 return False
     r = call(d.S.cells["ul"], [1, 2, 3])
-    return check(r[0] == "ok" and r[1] == 3 + v0, "uncached cells accept an unhashable argument", lambda: r)
+    if not check(r[0] == "ok" and r[1] == 3 + v0, "uncached cells accept an unhashable argument", lambda: r):
+        return False
+    for nm, args in (("ulf", ([1, 2, 3],)), ("culf", ())):
+        r = call(d.S.cells[nm], *args)
+        if not check(r[0] == "err" and r[1] == "ZeroDivisionError", "an uncached cells failing on an unhashable argument reports its own exception (%s)" % nm, lambda: r):
+            return False
+    r = call(d.S.cells["ulf"], [1, 2])
+    return check(r[0] == "ok" and r[1] == -1 and executor_idle(), "and computes afterwards", lambda: r)
 
 
 def _runs(d, q, t, done):
@@ -113,7 +122,7 @@ def _runs(d, q, t, done):
     return out
 
 
-ORDER9 = [0, 1, 2, 3, 7, 9, 12, 13, 14, 24, 29, 23, 5, 27, 28, 36]
+ORDER9 = [0, 1, 2, 3, 7, 9, 12, 13, 14, 24, 29, 23, 5, 27, 28, 36, 40]
 _V = dict(g=10, h=20, bx=3, x=1, y=2, sh=30, z=4, k=5)
 _NAT = dict(v0=1, v1=2, v2=3, z=4, g=5, z2=40, g2=50, p1_1=0, p2_1=-1, p1_2=1, p2_2=0, T2=True)
 QUICK = _os.environ.get("VERIF_TIER", "quick") == "quick"
@@ -134,7 +143,7 @@ def _parts_dag(tier, seed):
 
 QUERIES = [
     Query("flags_rich", flags_rich, pre=["0 <= mask < 32", "0 <= i1 < %d" % len(ORDER9)], partitions=_parts_rich,
-          natives=[dict(_V, mask=m, i1=i, v1=77, pre=True) for (m, i) in ((0, 0), (31, 1), (12, 1), (3, 4), (16, 6), (31, 11), (5, 13), (8, 3), (0, 15), (4, 15))],
+          natives=[dict(_V, mask=m, i1=i, v1=77, pre=True) for (m, i) in ((0, 0), (31, 1), (12, 1), (3, 4), (16, 6), (31, 11), (5, 13), (8, 3), (0, 15), (4, 15), (0, 16))],
           bounds=lambda tier: {"flag_cells": FLAG_CELLS, "assignments": "all 32", "edits": [EDITS[e][0] for e in ORDER9],
                                "history": "[eval all]? ; edit(v) ; observe all; compared with a fresh all-cached model that only saw the edit"},
           outside=["flags on cells outside the five", "histories of more than one edit (C02 covers pairs with the default flags)"]),
